@@ -29,6 +29,7 @@ DAYTICKS = 3
 NODATE = -1
 UNRESERVED = set(b'ABCDEFGHIJKLMNOPQRSTUVWXYZabcdefghijklmnopqrstuvwxyz0123456789-._~')
 
+DEEP_PARTS = ['%d-' % i + '\u044b\u0416 ' * 48 for i in range(7)]      # 7 components of 242 bytes: about 5000 characters once encoded
 SHM = '/dev/shm' if os.path.isdir('/dev/shm') else tempfile.gettempdir()
 
 
@@ -109,7 +110,7 @@ T0_POOL = [(2020, 2, 28, 23, 59, 58), (2023, 12, 31, 23, 59, 58), (2001, 1, 1, 0
 class Conc(object):
     """One concretisation of the abstract universe, chosen by seed."""
 
-    def __init__(self, seed=0, names=None, uid=None, t0=None, variants=None, nonutf8=False, xdg_rel=False):
+    def __init__(self, seed=0, names=None, uid=None, t0=None, variants=None, nonutf8=False, xdg_rel=False, deep=None):
         rnd = random.Random('conc|%s' % seed)
         self.seed = seed
         pool = NAME_POOL_NONUTF8 if nonutf8 else NAME_POOL
@@ -123,6 +124,7 @@ class Conc(object):
         self.umask = rnd.choice([0o022, 0o022, 0o000, 0o077])
         self.clock_via_env = rnd.random() < 0.5
         self.xdg_link = rnd.random() < 0.3        # $XDG_DATA_HOME is a symlink to a directory (trash dir reached through a link)
+        self.deep = (rnd.random() < 0.1) if deep is None else deep     # the sandbox lives under long non-ASCII directories
 
     def name(self, n):
         return self.names[n]
@@ -213,8 +215,10 @@ class World(object):
         self.conc = conc
         self.cfg = cfg
         self.base = tempfile.mkdtemp(prefix='vs-', dir=parent or SHM)
-        self.root = os.path.join(self.base, 'w')
-        os.mkdir(self.root)
+        # a deep sandbox: every absolute path is long and non-ASCII, so that the percent-encoded Path= line of a home-trash
+        # entry is several times PATH_MAX/NAME_MAX sized buffers (about 5000 characters) while the path itself is legal
+        self.root = os.path.join(self.base, *(DEEP_PARTS + ['w'])) if getattr(conc, 'deep', False) else os.path.join(self.base, 'w')
+        os.makedirs(self.root)
         self.digest2obj = {}
         self.obj_info = {}
         self.slots = {}          # (t, slotname bytes) -> ('item', o) | ('stray', id) | ('junk', id) | ('orph', o)
@@ -542,8 +546,12 @@ class World(object):
         elif j['kind'] == 'notinfo':
             # a file in info/ that is not the info file of any slot: another suffix, or no slot name at all
             s = b'junk-%d.txt' % j['id']
-            if rnd.random() < 0.4 and not os.path.lexists(tp + b'/info/.trashinfo'):
-                s = b'.trashinfo'
+            if rnd.random() < 0.5:
+                # no slot name at all, or the slot names '.' and '..' (which can never be payloads: files/. is files/ itself,
+                # files/.. is the trash directory)
+                alt = rnd.choice([b'.trashinfo', b'..trashinfo', b'...trashinfo'])
+                if not os.path.lexists(tp + b'/info/' + alt):
+                    s = alt
             with open(tp + b'/info/' + s, 'wb') as f:
                 f.write(b'[Trash Info]\nPath=' + escape(self.lpath('R', 'd', 'a')) + b'\nDeletionDate=1971-01-01T00:00:00\n')
             self.slots[(j['t'], s)] = ('junkfile', j['id'])
@@ -647,7 +655,7 @@ class World(object):
             for iname, ik in sorted(infos.items()):
                 consume(ik)
                 known = self.slots.get((t, iname)) or self.slots.get((t, iname[:-10] if iname.endswith(b'.trashinfo') else iname))
-                if not iname.endswith(b'.trashinfo') or iname == b'.trashinfo':
+                if not iname.endswith(b'.trashinfo') or iname in (b'.trashinfo', b'..trashinfo', b'...trashinfo'):
                     if known and known[0] == 'junkfile':
                         junk.append({'t': t, 'id': known[1], 'kind': 'notinfo'})
                         if snap[ik] != self.baseline.get(ik):
